@@ -231,21 +231,7 @@ func programNTS(r *mc.Run, cat []mut) func(x *mc.X) {
 					var reqPkt ntp.Packet
 					ntp.DecodePacket(&reqPkt, req.Data)
 					for k := 0; k < 2 && !sock.Closed() && !th.Finished(); k++ {
-						n := len(cat) + 2
-						ci := x.Choose(n, fmt.Sprintf("datagram%d", k))
-						var b []byte
-						from := srvAddr
-						tag := ""
-						switch {
-						case ci < len(cat):
-							b, from = cat[ci].f(genuine, reqPkt, ntp.Packet{})
-							tag = cat[ci].name
-						case ci == len(cat):
-							b, tag = bytes.Clone(prevGenuine), "previous-genuine-response"
-						default:
-							b, tag = bytes.Clone(genuine), "last-authenticator-byte-flipped"
-							b[len(b)-1] ^= 1
-						}
+						b, from, tag := ntsDatagram(x, k, cat, genuine, prevGenuine, reqPkt)
 						dg := &vnet.Datagram{From: from, To: req.From, Data: b, RxTime: w.Clock.Peek(), Tag: tag}
 						x.Logf("peer sends %s", tag)
 						nf := len(flt.Calls)
@@ -272,6 +258,146 @@ func programNTS(r *mc.Run, cat []mut) func(x *mc.X) {
 			time.Sleep(500 * time.Millisecond)
 			nflt := len(flt.Calls)
 			err := call(true)
+			x.Observe(err == nil, len(flt.Calls)-nflt)
+		})
+	}
+}
+
+// ntsDatagram chooses one datagram for an NTS-protected exchange: the NTP-level
+// catalogue applied to the authenticated response, plus the NTS-specific ones.
+func ntsDatagram(x *mc.X, k int, cat []mut, genuine, prevGenuine []byte, reqPkt ntp.Packet) (b []byte, from netip.AddrPort, tag string) {
+	from = srvAddr
+	ci := x.Choose(len(cat)+4, fmt.Sprintf("datagram%d", k))
+	switch ci - len(cat) {
+	case 0:
+		b, tag = bytes.Clone(prevGenuine), "previous-genuine-response"
+	case 1:
+		b, tag = bytes.Clone(genuine), "last-authenticator-byte-flipped"
+		b[len(b)-1] ^= 1
+	case 2:
+		// a well-formed plain NTP response to this very request, without any NTS field
+		b, tag = bytes.Clone(genuine[:48]), "nts-fields-stripped"
+	case 3:
+		// the unique identifier of the previous exchange on this exchange's header
+		b, tag = bytes.Clone(prevGenuine), "previous-response-with-this-header"
+		copy(b[:48], genuine[:48])
+	default:
+		b, from = cat[ci].f(genuine, reqPkt, ntp.Packet{})
+		tag = cat[ci].name
+	}
+	return
+}
+
+// ---------------------------------------------------------------- NTS over SCION
+
+func programSCIONNTS(r *mc.Run, cat []mut) func(x *mc.X) {
+	return func(x *mc.X) {
+		world.Run(r.T, x, func(w *world.World) {
+			server.VerifResetTSS()
+			nw := kit.NewNTSWorld(w)
+			sw := kit.NewSCIONWorld(w, kit.SrvHost, false, nw.Provider)
+			nw.NTPPort = kit.SrvPort
+			flt := &kit.RecFilter{}
+			c := &client.SCIONClient{Log: w.Log, Filter: flt}
+			c.Auth.NTSEnabled = true
+			c.Auth.NTSKEFetcher = kit.NewFetcher(w)
+			spath := kit.PathSpec{Kind: "scion", Segs: []int{2, 2}}.SnetPath(kit.CliIA, kit.SrvIA, net.UDPAddrFromAddrPort(kit.Router))
+			seen := 0
+			var prevGenuine []byte
+			call := func(script bool) (err error) {
+				ctx, cancel := context.WithTimeout(context.Background(), time.Second)
+				defer cancel()
+				deadline := time.Now().Add(time.Second)
+				th := w.Go("client", func() {
+					local := udp.UDPAddr{IA: kit.CliIA, Host: &net.UDPAddr{IP: kit.CliHost.AsSlice()}}
+					remote := udp.UDPAddr{IA: kit.SrvIA, Host: &net.UDPAddr{IP: kit.SrvHost.AsSlice(), Port: kit.SrvPort}}
+					_, _, err = client.MeasureClockOffsetSCION(ctx, w.Log, []*client.SCIONClient{c}, local, remote, []snet.Path{spath})
+				})
+				for {
+					w.Settle()
+					w.CheckPanics()
+					if th.Finished() {
+						return
+					}
+					var sock *vnet.UDPConn
+					for _, sk := range w.Net.Open() {
+						if sk != nw.SrvSock && sk != sw.Svc && sk != sw.EH && !sk.Closed() && sk.Reading.Load() {
+							sock = sk
+						}
+					}
+					all := w.Net.SentSince(seen)
+					seen += len(all)
+					var req *vnet.Datagram
+					for _, d := range all {
+						if d.Sock == sock {
+							req = d
+						}
+					}
+					if sock == nil {
+						w.Advance(100 * time.Millisecond)
+						if time.Now().After(deadline.Add(10 * time.Second)) {
+							x.Failf("harness", "client blocked without a reading socket")
+						}
+						continue
+					}
+					if req == nil {
+						time.Sleep(time.Until(deadline) + 1)
+						continue
+					}
+					out := sw.Send(sw.Svc, kit.Router, req.Data)
+					seen += len(out)
+					if len(out) != 1 {
+						x.Failf("harness", "SCION listener wrote %d datagrams for the client's NTS request", len(out))
+					}
+					gen, perr := kit.Parse(out[0].Data)
+					if perr != nil || gen.UDP == nil {
+						x.Failf("harness", "reply of the SCION listener: %v", perr)
+					}
+					genuine := gen.UDP.Payload
+					if !script {
+						prevGenuine = bytes.Clone(genuine)
+						rd := *out[0]
+						rd.From = kit.Router
+						rd.RxTime = w.Clock.Peek()
+						sock.Deliver(&rd)
+						continue
+					}
+					script = false
+					rq, _ := kit.Parse(req.Data)
+					var reqPkt ntp.Packet
+					ntp.DecodePacket(&reqPkt, rq.UDP.Payload)
+					for k := 0; k < 2 && !sock.Closed() && !th.Finished(); k++ {
+						b, from, tag := ntsDatagram(x, k, cat, genuine, prevGenuine, reqPkt)
+						pk := &kit.Pkt{SrcIA: gen.SCION.SrcIA, DstIA: gen.SCION.DstIA, SrcHost: kit.SrvHost, DstHost: kit.CliHost, RawPath: gen.RawPath, PathType: gen.SCION.PathType,
+							L4: "udp", SrcPort: gen.UDP.SrcPort, DstPort: gen.UDP.DstPort, Payload: b}
+						dg := &vnet.Datagram{From: kit.Router, To: req.From, Data: pk.Bytes(), RxTime: w.Clock.Peek(), Tag: tag}
+						x.Logf("peer sends %s", tag)
+						nf := len(flt.Calls)
+						sock.Deliver(dg)
+						w.Settle()
+						w.CheckPanics()
+						x.Transitions++
+						_ = from // the IP-source mutations do not exist at SCION level: the packet keeps the server's SCION address
+						if len(flt.Calls) > nf {
+							ok := len(b) >= len(genuine) && bytes.Equal(b[:len(genuine)], genuine)
+							if !ok {
+								x.Failf("unjustified-acceptance", "NTS-enabled SCION client evaluated datagram %q (%d bytes) as the response: it is not the authenticated response to the outstanding request", tag, len(b))
+							}
+						} else if tag == "genuine" && k == 0 {
+							x.Failf("genuine-response-rejected", "the unmutated NTS response over SCION was not accepted")
+						}
+					}
+				}
+			}
+			if err := call(false); err != nil {
+				x.Failf("genuine-response-rejected", "undisturbed NTS call over SCION failed: %v", err)
+			}
+			time.Sleep(500 * time.Millisecond)
+			nflt := len(flt.Calls)
+			err := call(true)
+			if err == nil && len(flt.Calls) == nflt {
+				x.Failf("success-without-exchange", "the call returned an offset without evaluating any response")
+			}
 			x.Observe(err == nil, len(flt.Calls)-nflt)
 		})
 	}
